@@ -206,7 +206,7 @@ class WN2(NativeModel):
                 return o
             if not isinstance(name, SV) and not isinstance(nm, SV) and nm == name:
                 return o
-        if gen is not None and isinstance(name, SV):
+        if gen is not None:
             return gen(name)
         raise Unsupported("WN2 stub: lookup of a name that the case did not declare: %r" % (name,))
 
@@ -249,13 +249,27 @@ class WN2(NativeModel):
     def valves(self):
         return self._of(self._L, PRValve, PSValve, FCValve, TCValve)
 
+    @staticmethod
+    def _k(name):
+        return name.t.get_id() if isinstance(name, SV) else str(name)
+
+    def set_links_for_node(self, name, inlet=None, outlet=None):
+        if inlet is not None:
+            self.inlet[self._k(name)] = inlet
+        if outlet is not None:
+            self.outlet[self._k(name)] = outlet
+
     def get_links_for_node(self, name, flag="ALL"):
-        key = name.t.get_id() if isinstance(name, SV) else name
+        key = self._k(name)
         flag = flag.upper()
         if flag == "INLET":
             return self.inlet[key]
         if flag == "OUTLET":
             return self.outlet[key]
+        if flag == "ALL":
+            a, b = self.inlet[key], self.outlet[key]
+            if isinstance(a, list) and isinstance(b, list):
+                return a + [x for x in b if x not in a]
         raise Unsupported("WN2 stub: get_links_for_node flag %r" % flag)
 
 
